@@ -70,3 +70,41 @@ func VerifSessionOf(c *Conn) VerifSession {
 
 	return v
 }
+
+// VerifSizes are the sizes of the per-connection buffers an unauthenticated
+// sender can influence (overlay only).
+type VerifSizes struct {
+	QueuedDatagrams  int
+	ReplayDetectors  int
+	LocalSeqEpochs   int
+	RemoteSeqEpochs  int
+	HandshakeCache   int
+	FragmentBytes    int
+	FragmentCount    int
+	FragmentMessages int
+	PendingACKs      int
+	RemoteEpoch      uint16
+	LocalEpoch       uint16
+}
+
+// VerifSizesOf reads the buffer sizes at a quiescent point.
+func VerifSizesOf(c *Conn) VerifSizes {
+	c.lock.RLock()
+	defer c.lock.RUnlock()
+	common := dtlsstate.CommonState(c.state)
+	b, n, m := c.fragmentBuffer.VerifSize()
+
+	return VerifSizes{
+		QueuedDatagrams:  len(c.encryptedPackets),
+		ReplayDetectors:  len(common.ReplayDetector),
+		LocalSeqEpochs:   len(common.LocalSequenceNumber),
+		RemoteSeqEpochs:  len(common.RemoteSequenceNumber),
+		HandshakeCache:   c.handshakeCache.VerifLen(),
+		FragmentBytes:    b,
+		FragmentCount:    n,
+		FragmentMessages: m,
+		PendingACKs:      len(c.pendingACKs),
+		RemoteEpoch:      common.RemoteEpoch(),
+		LocalEpoch:       common.LocalEpoch(),
+	}
+}
